@@ -355,3 +355,5 @@ def run(ctx):
 
     r = ctx.rule("R3i", "x86_64 interval add / sub / neg / copy: bounds are the interval meaning of the opcode (symbolic lanes)", 4)
     ctx.guarded(r, XS86.check_lane_semantics, "interval")
+    r = ctx.rule("R3j", "aarch64 interval abs / square / recip / sqrt give the interpreter's interval in every sign class of the argument; the undecided paths of min / max / and / or hold the bound-wise result", 8)
+    ctx.guarded(r, XS.check_interval_piecewise)
